@@ -75,6 +75,19 @@ def generate(rng, tier):
                     # physical-looking S(Q): positive at Qmin
                     c["desc"]["Qmin0"] = c["xin"][0] == 0.0
                     cases.append(c)
+    # r grids reaching far out (Qmin*r up to about 100: many oscillations of sin(Qr) inside the omitted range), plain and Lorch
+    for k, (X, Y, lorch) in enumerate([(0, 1, False), (1, 0, True), (2, 2, False), (3, 1, True)]):
+        c = F.gen_named_case(rng, "quick", 0, X, Y, lorch=lorch, omitted=True, channel=0, positive=True)
+        nq = max(6, min(len(c["xin"]), 30))
+        c["xin"] = [1.5 + 0.11 * j for j in range(nq)]
+        c["yin"] = [float(v) for v in L.from_base(0, X, np.array(c["xin"]), 1.0 + 0.5 * np.cos(1.3 * np.array(c["xin"])), c["mat"])]
+        c["dy"] = None if c["dy"] is None else [0.01] * nq
+        c["xout"] = [0.35 + 0.7 * j for j in range(100)]
+        c["int_dtype"] = [False, False, False]
+        c["xmin"] = c["xmax"] = None
+        c["desc"].update({"n": nq, "m": 100, "far_out_r": True, "Qmin0": False})
+        c["desc"].pop("fortran", None)
+        cases.append(c)
     # one long problem (2500 Q points x 2500 r points): whatever path a size-dependent implementation takes
     nb = 2500
     qb = [0.4 + 0.012 * j for j in range(nb)]
